@@ -108,3 +108,29 @@ claim('C02', 'other',
       'direction-mark propagation for arbitrary traversals is NOT decided.',
       'trusts: atom maps <= 9999 (reader regex); organic subset elements cannot be aromatic unless b,c,n,o,p,s',
       'DESIGN.md 4/C02')
+claim('C05', 'other',
+      'mutator-protocol typestate walk restricted to kekule / enumerate_kekule / thiele, constant propagation over the bond '
+      'orders the Kekule search and thiele can store, literal rule-table applicability',
+      'decides: every bond-order rewrite of the conversions is followed by flush (with sound keep flags), relabel, hydrogen '
+      'recomputation (kekule) and stereo fix (thiele) on every exit; a Kekule form can only contain orders 1/2 and thiele only '
+      'stores 4/1; the aromatic repair rules index only atoms of their own patterns. Existence/uniqueness of the alternation, '
+      'idempotence and "all Kekule forms aromatise to one form" are NOT decided (search behaviour).',
+      'trusts: exemption table rows for kekule/thiele (documented: keeps stereo as is; aromatisation keeps Kekule H counts)',
+      'DESIGN.md 4/C05')
+claim('C06', 'other',
+      'operand-provenance check of the cyclomatic number, single-source check of ring caches, definite assignment of ring '
+      'marks in calc_labels, LABELS/KEEP dimensions of the mutator protocol',
+      'decides: ring count and ring search use one graph whose only filter is the coordinate order 8; ring marks on atoms and '
+      'bonds derive only from the ring set and are (re)assigned for every atom/bond; every topology write reaches calc_labels '
+      'and drops the ring caches. Linear independence / minimality / numbering independence of the ring search are NOT decided.',
+      'trusts: none beyond the ast model',
+      'DESIGN.md 4/C06')
+claim('C14', 'other',
+      'mutator-protocol typestate walk over the normalisers, literal rule-table applicability (117 rules + 17 charge rules '
+      'against a SMARTS atom scanner), write-set (effect) check for the atom set',
+      'decides: every normaliser leaves caches/labels/hydrogens/stereo coherent; every built-in rule indexes only atoms of its '
+      'own pattern with orders/deltas in range ("never fail" for dangling indices); only hydrogen (im)explicification and salt '
+      'stripping can change the atom set and they touch hydrogens / whole components only. Charge/hydrogen conservation per '
+      'rule, idempotence and numbering independence are NOT decided.',
+      'trusts: SMARTS atom scanner for the documented subset; exemption table',
+      'DESIGN.md 4/C14')
